@@ -34,6 +34,14 @@ _INJ = (" Behavioural tie of the interleaving model (preemption injection): unde
         "the model's; the harness's own monitors (two guards alive, permits over-issued, try_* failing on an idle lock, "
         "a reader admitted past a pending writer) turn it into a concrete failing schedule.")
 
+_INJW = (" Wake-ups under preemption (search on the implementation, the property itself as oracle): under hook H4 one call "
+         "of the real crate is preempted before each of its atomic operations by complete calls of other agents (every "
+         "prefix history up to a depth, every call, every preemption point, every injected call, optionally one more call "
+         "afterwards; completed futures dropped or kept alive); then the scenario is drained - woken futures re-polled, "
+         "guards released one by one - and no future may remain pending with nothing held and nobody woken, within a "
+         "bounded number of re-polls. The recorded atomic operations of every scenario are also replayed in the acceptor "
+         "of the atomic-granularity model.")
+
 _SEARCH = (" Beyond the theorems (search aid, not part of the proof level): small concurrent scenarios of this property "
            "are run against the real crate under loom 0.7 (all interleavings up to a preemption bound, C11 memory model; "
            "the protected payload is a loom UnsafeCell, so an exclusion failure or a missing happens-before edge is a "
@@ -45,7 +53,7 @@ _TIE = ("The model is tied to /repo on every run: the same step functions (compi
 
 CLAIMS = {
     "C17": {
-        "text": "For each of the five primitives a potential phi (outstanding wake-ups + weights of the polled, uncompleted futures; for the OnceCell also the listeners a successful initialisation will wake) is proved to decrease strictly with EVERY re-poll of a pending future whose waker was called - any waker, either outcome of the Mutex's 0.5 ms test, any outcome of a woken OnceCell caller's initialiser - at every reachable state of the poll-granular models (theorems C17_*_step). Hence any sequence of such re-polls, in any order, with nothing released, started or cancelled in between, has length at most woken + 2*pending (Semaphore, Barrier), woken + 4*pending (Mutex), woken + 6*pending (RwLock), woken + 2*pending + listeners (OnceCell) (theorems C17_sem, C17_mutex, C17_rwlock, C17_once, C17_barrier): no wake-up cycle exists. " + _TIE + " The harness runs the woken futures to quiescence (settle) as a probe at every new state of the exhaustive DFS, from the most contended states found (beam search) and inside the random histories; the number of polls and the wakers called are compared with the model's, and the bound polls <= 5*pending is evaluated on the implementation at every settle.",
+        "text": "For each of the five primitives a potential phi (outstanding wake-ups + weights of the polled, uncompleted futures; for the OnceCell also the listeners a successful initialisation will wake) is proved to decrease strictly with EVERY re-poll of a pending future whose waker was called - any waker, either outcome of the Mutex's 0.5 ms test, any outcome of a woken OnceCell caller's initialiser - at every reachable state of the poll-granular models (theorems C17_*_step). Hence any sequence of such re-polls, in any order, with nothing released, started or cancelled in between, has length at most woken + 2*pending (Semaphore, Barrier), woken + 4*pending (Mutex), woken + 6*pending (RwLock), woken + 2*pending + listeners (OnceCell) (theorems C17_sem, C17_mutex, C17_rwlock, C17_once, C17_barrier): no wake-up cycle exists. " + _TIE + " The harness runs the woken futures to quiescence (settle) as a probe at every new state of the exhaustive DFS, from the most contended states found (beam search) and inside the random histories; the number of polls and the wakers called are compared with the model's, and the bound polls <= 5*pending is evaluated on the implementation at every settle." + _INJW,
         "note": "PARTIAL: atomic polls (no thread interleavings, no parked threads). Not proved: that woken only names pending futures, each once (woken <= pending) - true of the harness's woken set by construction.",
     },
     "C16": {
@@ -66,7 +74,7 @@ CLAIMS = {
         "note": "PARTIAL: atomic calls; the value clause is derived from exclusive access (C02) rather than from a payload model.",
     },
     "C06": {
-        "text": "All four clauses (nothing pending with no guard alive; no read() pending without writer; no upgradable_read() pending with a free slot; no writer/upgrade pending once no reader is left) are Lean theorems over every finite history of the poll-granular RwLock model (full alphabet, borrowed and Arc, cancellation at every point, completed futures kept alive). They rest on three inductive invariants proved for every reachable state: WordInv (who holds what), RegInv (which future is registered on which of the three events; no stale listeners) and WakeInv (a notified listener's owner has an outstanding wake-up; the inner mutex, no_writer and no_readers each hold a notification whenever a registered waiter could proceed). " + _TIE + " Compared fields: outcome, wakers called, both words, listener counts and notified flags of all three events." + (_CALLS % "C06") + _ATLOG + _SEARCH,
+        "text": "All four clauses (nothing pending with no guard alive; no read() pending without writer; no upgradable_read() pending with a free slot; no writer/upgrade pending once no reader is left) are Lean theorems over every finite history of the poll-granular RwLock model (full alphabet, borrowed and Arc, cancellation at every point, completed futures kept alive). They rest on three inductive invariants proved for every reachable state: WordInv (who holds what), RegInv (which future is registered on which of the three events; no stale listeners) and WakeInv (a notified listener's owner has an outstanding wake-up; the inner mutex, no_writer and no_readers each hold a notification whenever a registered waiter could proceed). " + _TIE + " Compared fields: outcome, wakers called, both words, listener counts and notified flags of all three events." + (_CALLS % "C06") + _ATLOG + _SEARCH + _INJW,
         "note": "PARTIAL: polls are atomic in the model; thread interleavings are not covered by the theorems. event-listener is modelled, not verified. Reading: a never-polled live upgrade future counts as a holder.",
     },
     "C09": {
@@ -98,15 +106,15 @@ CLAIMS = {
         "note": "PARTIAL: blocking forms are outside the models (loom scenarios only); atomic polls in the poll-granular model.",
     },
     "C08": {
-        "text": "Lean theorems over every finite history of the OnceCell model: once initialised and with no outstanding wake-up nobody polled is pending (C08_init); state 1 holds exactly while a live caller runs its initialiser, so Err, panic and cancellation all leave it (C08_not_stuck); in state 0 with no outstanding wake-up no polled get_or_init-style caller is pending, i.e. one was woken and took over (C08_handover); an error or panic is reported only in the poll in which the caller's own initialiser produced it (C08_blame). Invariants: WInv, RInv (registration on active_initializers / passive_waiters, no stale listeners), KInv (wake bookkeeping; all listeners notified in state 2; a notified active listener in state 0). " + _TIE + (_CALLS % "C08") + _SEARCH,
+        "text": "Lean theorems over every finite history of the OnceCell model: once initialised and with no outstanding wake-up nobody polled is pending (C08_init); state 1 holds exactly while a live caller runs its initialiser, so Err, panic and cancellation all leave it (C08_not_stuck); in state 0 with no outstanding wake-up no polled get_or_init-style caller is pending, i.e. one was woken and took over (C08_handover); an error or panic is reported only in the poll in which the caller's own initialiser produced it (C08_blame). Invariants: WInv, RInv (registration on active_initializers / passive_waiters, no stale listeners), KInv (wake bookkeeping; all listeners notified in state 2; a notified active listener in state 0). " + _TIE + (_CALLS % "C08") + _SEARCH + _INJW,
         "note": "PARTIAL: atomic polls; blocking forms and thread interleavings not covered. event-listener is modelled (notify_additional(usize::MAX) as 'notify every listener').",
     },
     "C05": {
-        "text": "No-lost-wake-up for the Mutex is a Lean theorem (invariant MInv: word, registration, wake bookkeeping, baton; induction over every history: any number of futures, cancellation at any moment of a future's life, completed futures kept alive, spurious polls and new wakers, bargers, both outcomes of the starvation test) about a model that includes event-listener's list semantics; the most-recent-waker clause is a separate theorem. " + _TIE + " Compared fields: outcome, wakers called, state word, listener count, notified flag." + (_CALLS % "C05") + _ATLOG + _SEARCH,
+        "text": "No-lost-wake-up for the Mutex is a Lean theorem (invariant MInv: word, registration, wake bookkeeping, baton; induction over every history: any number of futures, cancellation at any moment of a future's life, completed futures kept alive, spurious polls and new wakers, bargers, both outcomes of the starvation test) about a model that includes event-listener's list semantics; the most-recent-waker clause is a separate theorem. " + _TIE + " Compared fields: outcome, wakers called, state word, listener count, notified flag." + (_CALLS % "C05") + _ATLOG + _SEARCH + _INJW,
         "note": "PARTIAL: polls are atomic in the model; thread interleavings and lock_blocking waiters are not covered by the theorem. event-listener is modelled, not verified (but executes in-process in every differential run).",
     },
     "C07": {
-        "text": "No-lost-wake-up for the Semaphore is a Lean theorem (invariant WInv + Own, induction over every history: any number of futures, cancellation at any point, completed futures kept alive, add_permits(n) for any n) about a model that includes event-listener's list semantics. Blocking waiters: C07_blocking_is_poll proves that the code path on which a thread parked in acquire_blocking resumes (listener consumed first, then try_acquire, then - since fix 196e88b - the explicit forwarding) transforms the semaphore exactly as a poll of a notified future does, so the poll-history theorems cover the blocking forms. " + _TIE + " Compared fields: outcome, wakers called, counter, listener count, notified flag." + (_CALLS % "C07") + _ATLOG + _SEARCH,
+        "text": "No-lost-wake-up for the Semaphore is a Lean theorem (invariant WInv + Own, induction over every history: any number of futures, cancellation at any point, completed futures kept alive, add_permits(n) for any n) about a model that includes event-listener's list semantics. Blocking waiters: C07_blocking_is_poll proves that the code path on which a thread parked in acquire_blocking resumes (listener consumed first, then try_acquire, then - since fix 196e88b - the explicit forwarding) transforms the semaphore exactly as a poll of a notified future does, so the poll-history theorems cover the blocking forms. " + _TIE + " Compared fields: outcome, wakers called, counter, listener count, notified flag." + (_CALLS % "C07") + _ATLOG + _SEARCH + _INJW,
         "note": "PARTIAL: polls are atomic in the model; event-listener is modelled, not verified (but executes in-process in every differential run).",
     },
     "C13": {
